@@ -10,6 +10,28 @@ import vlib
 from vlib import vfmt, vparse
 
 LEVEL = "proof"
+
+import re
+_TOK = re.compile(r"\(|\)|[^\s()]+")
+def fparse(s):
+    """vlib.vparse, tokenised by a regular expression (the result lines of this family reach megabytes)"""
+    stack = [[]]
+    for m in _TOK.finditer(s):
+        t = m.group(0)
+        if t == "(":
+            stack.append([])
+        elif t == ")":
+            top = stack.pop()
+            stack[-1].append(top)
+        elif t[0] == "x":
+            stack[-1].append(bytes.fromhex(t[1:]))
+        elif t[0] == "-":
+            stack[-1].append(-int(t[1:], 16))
+        else:
+            stack[-1].append(int(t, 16))
+    if len(stack) != 1 or len(stack[0]) != 1:
+        raise ValueError("unbalanced value")
+    return stack[0][0]
 REG, DIR, LNK, CHR, BLK, FIFO, SOCK = 0o100000, 0o040000, 0o120000, 0o020000, 0o060000, 0o010000, 0o140000
 IFMT = 0o170000
 OK, WARN, FAILED, FATAL = 0, -20, -25, -30
@@ -175,8 +197,11 @@ def gen_cases(rep):
             else:
                 es = [ent(**A_ENT), x, ent(**B_ENT)]
                 line = case(fmt, es, emit=(1 << 20) if fmt in BYTE_LEVEL else 0)
+            # names of 64 KiB and more go through the (slow, list based) model only where a length field is that narrow
+            longname = field in ("pathname", "symlink", "hardlink") and max(len(un1(x[0]) or b""), len(un1(x[1]) or b""), len(un1(x[2]) or b"")) > 60000
+            model = not longname or (fmt, field) in (("bin", "pathname"), ("pwb", "pathname"), ("odc", "pathname"), ("ustar", "symlink"))
             out.append((line, dict(fmt=fmt, field=field, desc=str(desc), header_only=header_only, wide=wide,
-                                   xi=0 if len(es) == 1 else 1)))
+                                   xi=0 if len(es) == 1 else 1, model=model)))
     return out
 
 # ---- reading the harness result -------------------------------------------------------------------
@@ -296,6 +321,10 @@ def oracle_one(meta, cv, iv):
                 return ("C10:%s:damaged-after-refusal" % fmt,
                         "%s: entry with %s=%s was answered with status %d (%s) and the archive no longer reads back as the "
                         "accepted entries: %s" % (fmt, field, meta["desc"], hs, err[:60], bad))
+            if w[2] != OK:
+                return ("C10:%s:late-%s" % (fmt, field),
+                        "%s: entry with %s=%s accepted with ARCHIVE_OK, then archive_write_close fails with %d and the accepted entries "
+                        "are lost: %s" % (fmt, field, meta["desc"], w[2], bad))
             return ("C10:%s:%s" % (fmt, field),
                     "%s: entry with %s=%s accepted with ARCHIVE_OK and the archive no longer reads back: %s" % (fmt, field, meta["desc"], bad))
     if reported:
@@ -361,7 +390,7 @@ def harness_env():
 
 def check_cases(rep, runner, exe, cases, stats):
     lines = [c[0] for c in cases]
-    model_idx = [k for k, c in enumerate(cases) if c[1]["fmt"] in BYTE_LEVEL and not c[1]["wide"]]
+    model_idx = [k for k, c in enumerate(cases) if c[1]["fmt"] in BYTE_LEVEL and not c[1]["wide"] and c[1].get("model", True)]
     # model on the byte-level subset only
     sub = [lines[k] for k in model_idx]
     mpath = vlib.write_cases(sub, "fmt-model.cases")
@@ -377,11 +406,11 @@ def check_cases(rep, runner, exe, cases, stats):
         if il[k] is None:
             continue
         try:
-            iv = vparse(il[k])
+            iv = fparse(il[k])
         except Exception:
             rep.violation("C10:unparsable-output", "harness output not parsable", dict(case=line, impl=il[k][:300]), found_input=True)
             continue
-        cv = vparse(line)
+        cv = fparse(line)
         hit = oracle_one(meta, cv, iv)
         stats["evaluations"] += 1
         st = iv[0][1][meta["xi"]][0] if len(iv[0][1]) > meta["xi"] else None
@@ -393,7 +422,7 @@ def check_cases(rep, runner, exe, cases, stats):
                                                cmd="./check C10 --replay <this file>"), found_input=True)
         if k in model_of:
             try:
-                mv = vparse(model_of[k])
+                mv = fparse(model_of[k])
             except Exception:
                 mv = [model_of[k][:40]]
             if project_impl(iv) == mv:
@@ -511,7 +540,7 @@ def replay(rep, path):
         meta = rp.get("meta")
         stats = dict(evaluations=0, oracle_hits=0, agree=0, disagree=0, by_status={}, keys={})
         if meta is None:
-            cv = vparse(rp["case"])
+            cv = fparse(rp["case"])
             meta = dict(fmt=cv[2].decode(), field="replayed", desc="?", header_only=False, wide=True, xi=min(1, len(cv[7]) - 1))
         check_cases(rep, runner, exe, [(rp["case"], meta)], stats)
     rep.coverage.update(evaluations=1, distinct_nontrivial=1, samples=[rp["case"][:300]])
